@@ -38,6 +38,16 @@ CHECKS = {
             "For every program x option set every iteration order of each iterated set (<= d simultaneous deviations) must yield identical bytes; every call history up to the depth, run in a fresh process, must leave every alphabet element's output equal to a fresh process; 16+ PYTHONHASHSEED values agree.",
             "Brace-written set literals would not be owned by the seam (none exist today); the seed sweep is the only cover for them.",
             "DESIGN.md §2 C12"),
+    "C07": ("model_checking",
+            "bounded-exhaustive program enumeration (catalogue x control contexts, templates x operand shapes, ordered statement pairs, all 1-2 character names, bundled examples x option cube) through the real convert(); every output parsed by a BASIC09 structural parser",
+            "Every accepted program in the enumerated space is parsed by the reference BASIC09 statement parser (labels, backslash separation, block nesting, complete operators/calls, built-in arity, closed literals, reserved words) plus leak detectors for Python object text.",
+            "Trusted: vf/b09/syntax.py (reserved words bound to the BASIC09 binary's token table, ecb.b09 must parse). Programs whose source has unbalanced FOR/NEXT are outside the fragment.",
+            "DESIGN.md §2 C07"),
+    "C13": ("model_checking",
+            "bounded-exhaustive enumeration of runtime-using programs (singles, pairs, templates x operand shapes, hostile user text x text positions, procedure names, string sizes) with an independent reachability closure over the parsed library call graph",
+            "For each program the bundle must equal: sorted closure of the RUN graph (library parsed by the reference BASIC09 parser), each once, program last; all RUNs resolve; placeholders replaced by the requested size; user procedure identical to the dependency-free output.",
+            "Trusted: call graph from vf/b09/syntax.py parse of ecb.b09; OS-9 modules gfx, gfx2, syscall, inkey.",
+            "DESIGN.md §2 C13"),
 }
 
 PENDING_REASON = "check not built yet in this revision (work in progress; will be claimed when its explorer exists)"
